@@ -229,6 +229,8 @@ func applyExplicit(h *hist, c *mCase, ptr map[int]*tree.Node) *Event {
 	return nil
 }
 
+var caseTag = "case"
+
 func replayEditCases(cases, out, prop string, shard, nshards int) (int, map[string]int) {
 	f, err := os.Open(cases)
 	if err != nil {
@@ -274,7 +276,7 @@ func replayEditCases(cases, out, prop string, shard, nshards int) (int, map[stri
 		if err != nil {
 			fatal("build case %d: %v", k, err)
 		}
-		h := &hist{r: rand.New(rand.NewSource(int64(k))), tw: tw, opt: opt, gp: defaultGen(), label: fmt.Sprintf("%s-case-%d", prop, k)}
+		h := &hist{r: rand.New(rand.NewSource(int64(k))), tw: tw, opt: opt, gp: defaultGen(), label: fmt.Sprintf("%s-%s-%d", prop, caseTag, k)}
 		h.t = t
 		if c.Op == "NNIAll" {
 			// the presentation asked by the case (other root, rotated neighbour lists) is part of the starting tree
